@@ -25,6 +25,7 @@ type GenOpts struct {
 	MaxExponent    float64
 	ForceByzIfAble bool
 	TwoFaced       bool // near-thirds table, Byzantine members run as two personalities
+	AllowDivergent bool // a would-be silent member may run as an honest participant with a diverged base view
 }
 
 func scaledSum(table gpbft.PowerEntries, ids []gpbft.ActorID) (int64, int64) {
@@ -186,6 +187,12 @@ func GenConfig(t *rapid.T, o GenOpts) *Config {
 			cfg.Byz = nil
 			cfg.TwoFaced = false
 		}
+	}
+	if o.AllowDivergent && !o.TwoFaced && len(cfg.Silent) > 0 && rapid.Bool().Draw(t, "divergent") {
+		d := cfg.Silent[0]
+		cfg.Silent = cfg.Silent[1:]
+		cfg.Honest = append(cfg.Honest, d)
+		cfg.Divergent = append(cfg.Divergent, d)
 	}
 	// instances
 	ninst := rapid.IntRange(1, o.MaxInstances).Draw(t, "ninst")
